@@ -210,6 +210,11 @@ func c13TagClauses(recs []sm.Record) []c13Clause {
 			add(names[i], names[i+1])
 		}
 	}
+	// the same tag asked for twice, in spellings that denote the same tag (a list of queried tags is not a set)
+	for i := 0; i < len(names) && i < 3; i++ {
+		add(names[i], "#"+strings.ToUpper(names[i]))
+		add(names[i], names[i], names[i])
+	}
 	add("nope")
 	add("nope", "a")
 	var out []c13Clause
@@ -466,6 +471,9 @@ func c13Run(c *fw.Ctx, file int, combo []c13Clause, idx int) {
 	if idx%4 == 0 {
 		sorts = append(sorts, []string{"--sort", "asc"}, []string{"--sort", "desc"})
 	}
+	if idx%4 == 2 {
+		sorts = append(sorts, []string{"--sort", "ASC"}, []string{"--sort", "DESC"}) // the documented upper-case spellings
+	}
 	for _, srt := range sorts {
 		c.Eval(1)
 		full := append(append([]string{"json"}, args...), srt...)
@@ -485,7 +493,7 @@ func c13Run(c *fw.Ctx, file int, combo []c13Clause, idx int) {
 		if srt == nil {
 			why = c20CheckRecords(out, exp)
 		} else {
-			asc := srt[1] == "asc"
+			asc := strings.ToLower(srt[1]) == "asc"
 			sort.SliceStable(exp, func(i, j int) bool {
 				a, b := strings.ReplaceAll(exp[i].Date, "/", "-"), strings.ReplaceAll(exp[j].Date, "/", "-")
 				if asc {
